@@ -193,3 +193,40 @@ def rule_index_width(ctx):
 
 
 RULES_ORPHAN = [rule_orphan, rule_iterator_init]
+
+
+def rule_level_sync(ctx):
+    """index-set lookup walks the levels N..1 with a counter while following child pointers: a node is unpacked *as the node of level k* only after
+    its level was compared with k (an index set skips the level of a variable that has a single value)"""
+    import re
+    P = ctx.program
+    R = RuleResult("guard.level-sync", "in dd_edge::getElemInt / getElemLong a handle reaches unpacked_node::initFromNode only on the levels-agree arm of a test comparing getNodeLevel(handle) with the loop's level counter")
+    for q in (M + "dd_edge::getElemInt", M + "dd_edge::getElemLong"):
+        for f in P.find(q):
+            g = Graph(f)
+            R.functions.add(f["inst"])
+            sinks = [n for n in g.nodes if n.kind == "call" and qmatch(n.ev["q"], "unpacked_node::initFromNode")]
+            if not sinks:
+                raise AnalysisBroken("guard.level-sync: %s no longer unpacks a node" % q)
+            for s_ in sinks:
+                var = [a for a in s_.ev["args"] if a.isidentifier()][-1]
+                R.paths += 1
+                agree = set()
+                for b in g.nodes:
+                    if b.kind != "branch" or not b.cond or len(b.succ) != 2 or b.cond.get("op") not in ("==", "!="):
+                        continue
+                    t = re.sub(r"\s+", "", b.cond["text"])
+                    if not re.search(r"getNodeLevel\(%s\)" % re.escape(var), t):
+                        continue
+                    eq_edge = 0 if b.cond["op"] == "==" else 1
+                    agree.add((b.id, eq_edge))
+                iid = "%s: initFromNode(%s) only after getNodeLevel(%s) was found equal to the level counter" % (q.replace(M, ""), var, var)
+                # no path to the unpacking may avoid every levels-agree edge
+                p_ = g.path(g.entry, lambda n, s_=s_: n.id == s_.id, avoid_edge=lambda n, i: (n.id, i) in agree)
+                if agree and p_ is None:
+                    R.ok(iid, where(f, s_.line))
+                else:
+                    R.fail(iid, where(f, s_.line), Finding(R.rule, f["file"], q, "initFromNode(%s)" % var,
+                           "the walk unpacks `%s` as the node of the current level without comparing its level with the counter: when the index set skips a level (a variable with a single value) every lookup goes out of step and fails" % var, s_.line))
+    R.require_floor(2, "index-lookup walks")
+    return R
